@@ -64,6 +64,12 @@ def DType.kind : DType → String
   | .u8 => "u" | .u16 => "u" | .u32 => "u" | .u64 => "u" | .i8 => "i" | .i16 => "i" | .i32 => "i" | .i64 => "i"
   | .f32 => "f" | .f64 => "f" | .bool => "b"
 
+/-- `_CombinedPixelTransform._check_output_range` (image.py): when no transform applies, stored integers are cast directly
+to an integer output dtype and are range-checked iff `np.can_cast(stored dtype, output dtype, 'safe')` is false — stored
+dtype uint8 (1 and 8 bit objects): only int8; uint16: uint8, int8, int16 -/
+def rangeCheckActive (bits : Nat) (d : DType) : Bool :=
+  if bits ≤ 8 then d == .i8 else (d == .u8 || d == .i8 || d == .i16)
+
 /-- `_check_numpy_value_representation`: the dispatch on the kind and the comparison are the translated function
 (`Gen.checkReprT`, T8g); `np.finfo(d).max` / `np.iinfo(d).max` are supplied from the table of maxima -/
 def checkRepr (maxVal : Int) (d : DType) : Except ErrKind Unit :=
@@ -87,6 +93,7 @@ structure Stored where
   bg : Nat               -- PixelPaddingValue, 0 when absent
   npix : Nat             -- Rows * Columns
   frames : List SFrame
+  refs : List Nat := []  -- the source instances the object references (its `InstanceUIDs` table), as opaque numbers
   deriving Repr, Inhabited
 
 structure Req where
@@ -119,6 +126,10 @@ def chanTable (segs : List Nat) (remap : Option (List Nat)) : List (Nat × Nat) 
   match remap with
   | some r => r.zip segs
   | none => (List.range segs.length).zip segs
+
+/-- the frame passes the output range check of the frame transform (`frame.max() > np.iinfo(dtype).max` raises) -/
+def frameInRange (bits : Nat) (d : DType) (f : SFrame) : Bool :=
+  !rangeCheckActive bits d || f.pix.all fun p => decide ((p : Int) ≤ d.maxVal)
 
 /-- rows of the join for the output frame whose stack value is `k`: (stored frame, output channel index) -/
 def joinRows (frames : List SFrame) (chan : List (Nat × Nat)) (k : Nat) : List (SFrame × Nat) :=
@@ -211,6 +222,10 @@ def labelmapRead (st : Stored) (rq : Req) (d : DType) : Except ErrKind Out := do
   let (needRemap, ic) ← labelmapDecision false rq.combine rq.relabel d.code rq.segs.length
       (nXor rq.segs st.segNums) (isOneToN rq.segs) st.bitsStored
   let interm ← (match DType.ofCode ic with | some x => .ok x | none => .error .type : Except ErrKind DType)
+  -- every frame that is read goes through the frame transform with output dtype `interm` (its range check refuses a value
+  -- the dtype cannot hold; which frame fails first does not matter: the loop has no other refusal)
+  if !(rq.keys.all fun k => (st.frames.filter (fun f => f.key == k)).all (frameInRange st.bitsStored interm)) then
+    .error .value else
   -- the frames are read first, the table is built once afterwards
   let raws := rq.keys.map fun k => labelRow interm st.npix (st.frames.filter (fun f => f.key == k))
   let table ← (if needRemap then some <$> remapTableT st rq d interm else pure none : Except ErrKind (Option (List Int)))
@@ -242,6 +257,8 @@ def stackRead (st : Stored) (rq : Req) (d : DType) (willRescale : Bool) : Except
     let frames ← rq.keys.mapM fun k => combineRow st.type st.mfv rq.skipOverlap interm st.npix (joinRows st.frames chan k)
     pure (.combined frames)
   else
+    if !(rq.keys.all fun k => (joinRows st.frames chan k).all fun r => frameInRange st.bitsStored interm r.1) then
+      .error .value else
     let frames := rq.keys.map fun k => stackRow interm st.npix rq.segs.length (joinRows st.frames chan k)
     if rq.rescale && st.type == .fractional then
       if frames.any (fun fr => fr.any (fun ch => ch.any (fun v => v > (st.mfv : Int)))) then .error .runtime
@@ -261,22 +278,20 @@ def readCore (st : Stored) (rq : Req) : Except ErrKind Out := do
 
 /-! ### the public entry points -/
 
-/-- how an entry point decides that a requested stack value is unknown to the object -/
+/-- the stack entry points; what each knows about the sources comes from the object itself: by source instance the
+referenced instances (`st.refs`); by source frame the instance `uid` must be referenced and the frame numbers are
+judged against the highest referenced frame number; by dimension index values the positions that have a frame;
+volume / total pixel matrix derive the positions from the object -/
 inductive Mode
-  | known (ks : List Nat)   -- by source instance (`InstanceUIDs` table) / by dimension index values (values in the LUT)
-  | maxFrame                -- by source frame: numbers above the highest referenced frame number
-  | all                     -- volume / total pixel matrix: positions are derived from the object itself
+  | bySource
+  | frame (uid : Nat)
+  | div
+  | all
   deriving Repr, Inhabited
 
 def framesUnique (st : Stored) : Bool :=
   if st.type = .labelmap then decide (st.frames.map (·.key)).Nodup
   else decide (st.frames.map fun f => (f.key, f.seg)).Nodup
-
-def missingRefused (st : Stored) (mode : Mode) (keys : List Nat) : Bool :=
-  match mode with
-  | .known ks => keys.any fun k => !ks.contains k
-  | .maxFrame => keys.any fun k => k > listMax (st.frames.map (·.key))
-  | .all => false
 
 /-- by source frame: every requested number passes the translated per-number checks (`Gen.frameAdmitted`, T8f:
 positive, and not above the highest referenced frame number unless the caller asserts that missing frames are empty) -/
@@ -286,16 +301,24 @@ def framesAdmitted (st : Stored) (assertMissing : Bool) (keys : List Nat) : Bool
 /-- the entry point refuses the requested stack values -/
 def entryRefuses (st : Stored) (mode : Mode) (assertMissing : Bool) (keys : List Nat) : Bool :=
   match mode with
-  | .known ks => !assertMissing && keys.any fun k => !ks.contains k
-  | .maxFrame => !framesAdmitted st assertMissing keys
+  | .bySource => !assertMissing && keys.any fun k => !st.refs.contains k
+  | .div => !assertMissing && keys.any fun k => !(st.frames.map (·.key)).contains k
+  | .frame uid => (!assertMissing && !st.refs.contains uid) || !framesAdmitted st assertMissing keys
   | .all => false
+
+/-- the frames the query runs over: by source frame with an instance the object does not reference (possible only
+under the assertion) no frame is used (`indices = iter(())`) -/
+def effective (st : Stored) (mode : Mode) : Stored :=
+  match mode with
+  | .frame uid => if st.refs.contains uid then st else { st with frames := [] }
+  | _ => st
 
 def read (st : Stored) (mode : Mode) (assertMissing : Bool) (rq : Req) : Except ErrKind Out := do
   if rq.segs.isEmpty then .error .value else
   if rq.keys.isEmpty then .error .value else
   if !framesUnique st then .error .runtime else
   if entryRefuses st mode assertMissing rq.keys then .error .key else
-  readCore st rq
+  readCore (effective st mode) rq
 
 /-! ### construction: a 4-D stacked 0/1 mask stored as a label map (`_combine_segments` and the look-up that follows it
 in `_check_and_cast_pixel_array`), one pixel at a time -/
@@ -320,8 +343,21 @@ def labelPixel (nums : List Nat) (chans : List Nat) : Except ErrKind Nat :=
 /-- by source frame: a frame number 0 is requested (`Frame numbers are 1-based indices and must be > 0`) -/
 def zeroFrameRequested (mode : Mode) (keys : List Nat) : Bool :=
   match mode with
-  | .maxFrame => keys.any (· == 0)
+  | .frame _ => keys.any (· == 0)
   | _ => false
+
+/-- a requested stack value is **unknown to the object's reference tables**: a source instance it does not reference;
+by source frame an unreferenced instance or a frame number above the highest referenced one; dimension index values no
+frame has.  (A referenced source without any frame is *known*: it reads as empty without any assertion.) -/
+def missingRefused (st : Stored) (mode : Mode) (keys : List Nat) : Bool :=
+  match mode with
+  | .bySource => keys.any fun k => !st.refs.contains k
+  | .div => keys.any fun k => !(st.frames.map (·.key)).contains k
+  | .frame uid => !st.refs.contains uid || keys.any fun k => decide (k > listMax (st.frames.map (·.key)))
+  | .all => false
+
+/-- every stored frame stems from a referenced source (by source instance) -/
+def RefsCover (st : Stored) : Prop := ∀ f ∈ st.frames, f.key ∈ st.refs
 
 /-- closed form of one cell of the remapping table (before the cast), `numIn` = `num_input_segments` -/
 def remapEntry (segs : List Nat) (combine relabel : Bool) (bg numIn s : Nat) : Int :=
@@ -395,13 +431,15 @@ def IsCombinedValue (st : Stored) (segs : List Nat) (relabel : Bool) (k i : Nat)
 def NoOverlap (st : Stored) (segs : List Nat) (k : Nat) : Prop :=
   ∀ s₁ ∈ segs, ∀ s₂ ∈ segs, s₁ ≠ s₂ → ∀ i, ¬ (covers st k s₁ i ∧ covers st k s₂ i)
 
-/-- every stored frame can be combined: 0/1 valued (BINARY), 0/MaximumFractionalValue valued (FRACTIONAL) -/
-def AllBinary (st : Stored) : Prop :=
-  ∀ f ∈ st.frames, if st.type = .fractional then st.mfv ≠ 0 ∧ ∀ p ∈ f.pix, p = 0 ∨ p = st.mfv else ∀ p ∈ f.pix, p ≤ 1
+/-- every frame the combined read uses (requested stack value, requested segment) can be combined: 0/1 valued (BINARY),
+0/MaximumFractionalValue valued (FRACTIONAL) -/
+def UsedBinary (st : Stored) (keys segs : List Nat) : Prop :=
+  ∀ f ∈ st.frames, f.key ∈ keys → f.seg ∈ segs →
+    if st.type = .fractional then st.mfv ≠ 0 ∧ ∀ p ∈ f.pix, p = 0 ∨ p = st.mfv else ∀ p ∈ f.pix, p ≤ 1
 
 /-- a well-formed BINARY / FRACTIONAL object: a (stack value, segment) pair identifies at most one frame, pixel
 values are 0/1 (BINARY) or at most MaximumFractionalValue ≤ 255 (FRACTIONAL), segment numbers are positive and every
-frame has Rows*Columns pixels -/
+frame has Rows*Columns pixels; the pixel depth is 1 (BINARY) or 8 (FRACTIONAL) -/
 structure WfStack (st : Stored) : Prop where
   type : st.type ≠ .labelmap
   unique : framesUnique st = true
@@ -409,5 +447,6 @@ structure WfStack (st : Stored) : Prop where
   mfv : st.type = .fractional → 1 ≤ st.mfv ∧ st.mfv ≤ 255
   pos : ∀ s ∈ st.segNums, 0 < s
   len : ∀ f ∈ st.frames, f.pix.length = st.npix
+  bits : st.bitsStored ≤ 8
 
 end HdVerif.SegRead
